@@ -22,6 +22,8 @@ Definition w_ptr_flush2 : bytes := [0;0;132;0;0;0;0;1;0;0;0;0;5;95;104;116;116;1
 Definition w_mixed_nohost : bytes := [0;0;132;0;0;0;0;1;0;0;0;2;5;95;104;116;116;112;4;95;116;99;112;5;108;111;99;97;108;0;0;12;0;1;0;0;17;148;0;6;3;119;101;98;192;12;192;40;0;33;128;1;0;0;0;120;0;14;0;0;0;0;31;144;5;72;111;115;116;49;192;23;192;40;0;16;128;1;0;0;17;148;0;4;3;97;61;49] .
 Definition w_addr_lower3 : bytes := [0;0;132;0;0;0;0;0;0;0;0;1;5;104;111;115;116;49;5;108;111;99;97;108;0;0;1;128;1;0;0;0;3;0;4;192;168;1;50] .
 
+Definition w_twonames_addr3 : bytes := [0;0;132;0;0;0;0;2;0;0;0;3;5;95;104;116;116;112;4;95;116;99;112;5;108;111;99;97;108;0;0;12;0;1;0;0;17;148;0;6;3;119;101;98;192;12;8;95;112;114;105;110;116;101;114;4;95;115;117;98;192;12;0;12;0;1;0;0;17;148;0;2;192;40;192;40;0;33;128;1;0;0;0;120;0;14;0;0;0;0;31;144;5;104;111;115;116;49;192;23;192;40;0;16;128;1;0;0;17;148;0;4;3;97;61;49;192;92;0;1;128;1;0;0;0;3;0;4;192;168;1;50] .
+
 Definition ex_ifs : iftab := [(2, (true, true)); (3, (true, false))].
 Definition T0 : N := 1000000.
 
@@ -98,6 +100,20 @@ Lemma twonames_facts :
   /\ map (fun o => length (filter is_removed_evt o)) (run_history ex_ifs twonames_hist) = [0; 0; 2; 0]%nat
   /\ chk_C05 ex_ifs twonames_hist (ex_wakes twonames_hist) (map obs_of (run_history ex_ifs twonames_hist)) = true.
 Proof. repeat split; vm_compute; reflexivity. Qed.
+
+(* same instance, the ADDRESS (TTL 3 s) runs out while PTRs and SRV stay: both channels get
+   ServiceRemoved (repair f108398 of resolve_updated_instances) *)
+Definition twonames_addr_hist : list iter :=
+  [ mkIter T0 [] [CBrowse n_ty 1; CBrowse n_sub 2];
+    mkIter (T0 + 100) [mkDgram 2 true w_twonames_addr3] [];
+    mkIter (T0 + 3100) [] [];
+    mkIter (T0 + 3600) [] [] ].
+
+Lemma twonames_addr_facts :
+  map (fun o => length (filter is_removed_evt o)) (run_history ex_ifs twonames_addr_hist) = [0; 0; 2; 0]%nat
+  /\ chk_C05 ex_ifs twonames_addr_hist (ex_wakes twonames_addr_hist)
+             (map obs_of (run_history ex_ifs twonames_addr_hist)) = true.
+Proof. split; vm_compute; reflexivity. Qed.
 
 (* SRV target "Host1.local.", the address arrives later, alone, for "host1.local." (TTL 3 s):
    ServiceResolved when it arrives, ServiceRemoved when it runs out *)
